@@ -32,6 +32,8 @@ pub enum Step {
     QueryBalance { tag: String, addr: String, denom: String },
     QueryRaw { tag: String, addr: String, key: Binary },
     QuerySmartGet { tag: String, addr: String, key: String },
+    /// smart query answered by iterating the other contract's storage
+    QuerySmartList { tag: String, addr: String, descending: bool },
     ReadOwn { tag: String, key: String },
     RangeOwn { tag: String },
     /// fail iff the stored number under `key` (0 when absent) is below `min`
@@ -68,6 +70,8 @@ pub enum QueryMsg {
     GetNum { key: String },
     /// query that itself queries a balance (nested query path)
     Balance { addr: String, denom: String },
+    /// everything the contract holds, by ITERATION (ascending or descending), as (key, value) strings
+    List { descending: bool },
 }
 
 #[derive(Clone, Debug)]
@@ -176,6 +180,14 @@ fn run(deps: DepsMut, env: &Env, script: &Script, ev: &mut Ev) -> StdResult<Resp
                 };
                 ev.obs.push((tag.clone(), o));
             }
+            Step::QuerySmartList { tag, addr, descending } => {
+                let r: StdResult<Vec<(String, String)>> = deps.querier.query_wasm_smart(addr.clone(), &QueryMsg::List { descending: *descending });
+                let o = match r {
+                    Ok(v) => Obs::Range(v.into_iter().map(|(k, v)| (k.into_bytes(), v.into_bytes())).collect()),
+                    Err(e) => Obs::Err(e.to_string()),
+                };
+                ev.obs.push((tag.clone(), o));
+            }
             Step::ReadOwn { tag, key } => {
                 ev.obs.push((tag.clone(), Obs::Bytes(deps.storage.get(key.as_bytes()))));
             }
@@ -262,6 +274,15 @@ pub fn query(deps: Deps, _env: Env, msg: QueryMsg) -> StdResult<Binary> {
         QueryMsg::Balance { addr, denom } => {
             let c = deps.querier.query_balance(addr, denom)?;
             to_json_binary(&c.amount)
+        }
+        QueryMsg::List { descending } => {
+            let order = if descending { cosmwasm_std::Order::Descending } else { cosmwasm_std::Order::Ascending };
+            let all: Vec<(String, String)> = deps
+                .storage
+                .range(None, None, order)
+                .map(|(k, v)| (String::from_utf8_lossy(&k).to_string(), String::from_utf8_lossy(&v).to_string()))
+                .collect();
+            to_json_binary(&all)
         }
     }
 }
